@@ -24,8 +24,8 @@ ASSUMPTIONS = ['"conforming per its documentation" is the contract the fake usb1
                'find_all_adb_devices, _open, _find_and_open and _flush_buffers are outside the statement; errors injected into open/claim are noted, not asserted']
 REAL_VS_STUB = {'real': ['adb_shell.transport.usb_transport.UsbTransport', 'adb_shell.adb_device.AdbDevice / AdbDeviceUsb'],
                 'stub': ['usb1 / libusb (simadb.fakeusb1)', 'adbd or raw peer', 'clock']}
-EXPECT_PROBES = {'all': ['c20_session', 'c20_script', 'c20_err_in_read', 'c20_err_in_write', 'c20_err_in_close', 'c20_use_after_close', 'c20_by_serial', 'c20_by_port', 'c20_timeout_none', 'c20_kernel_driver']}
-OWN = ('usb-error-swallowed', 'wrong-interface', 'wrong-endpoint', 'wrong-length', 'read-too-long', 'bytes-differ', 'timeout-ms', 'bare-usb-error', 'crash', 'after-close', 'close-not-idempotent',
+EXPECT_PROBES = {'all': ['c20_session', 'c20_script', 'c20_err_in_read', 'c20_err_in_write', 'c20_err_in_close', 'c20_use_after_close', 'c20_by_serial', 'c20_by_port', 'c20_timeout_none', 'c20_kernel_driver', 'c20_recovery']}
+OWN = ('recovery-failed', 'usb-error-swallowed', 'wrong-interface', 'wrong-endpoint', 'wrong-length', 'read-too-long', 'bytes-differ', 'timeout-ms', 'bare-usb-error', 'crash', 'after-close', 'close-not-idempotent',
        'wrong-result', 'differs-from-memory', 'hang', 'no-termination', 'wrong-device', 'unexpected-exception', 'timeout-instead-of-result', 'write-lost', 'wire-format')
 ERRS = ['io', 'nodevice', 'timeout', 'pipe', 'overflow', 'busy']
 USB_EXC = ('UsbReadFailedError', 'UsbWriteFailedError')
@@ -163,6 +163,10 @@ def eval_session(case, tapes, out):
         absorb(out, run0, tape0)
         n = run0.usb.ncall
         scn['usb']['faults'] = [{'at': faults[0]['pick'] % max(1, n), 'err': faults[0]['err']}]
+    if scn['usb'].get('faults') and scn['api'] == 'sync':
+        # after the injected error: close(), connect() again (same object, same bus), one command
+        name0 = next(iter(scn['device'].get('cmds', {})), None)
+        scn['post'] = [{'op': 'usb_heal'}, {'op': 'close'}, {'op': 'connect', 'rt': 2.0}] + ([{'op': 'shell', 'cmd': name0, 'decode': False, 'rt': 2.0}] if name0 else [])
     c1 = dict(case)
     c1['scn1'] = scn
     run, tape = run_scn(c1, 'scn1', 1, tapes, seed_idx=0)
@@ -240,6 +244,13 @@ def eval_session(case, tapes, out):
             for r in bad:
                 if not (r['exc'].startswith('USBError') or r['exc'] in USB_EXC):
                     probs.append(O.P('crash', 'libusb %s injected into %s: %s raised %s (%s)' % (err, name, r['op'], r['exc'], r.get('msg'))))
+        # recovery on the same object: close() and connect() must work again (the handle of the broken session must have been released)
+        for r in (getattr(run, 'post', []) if name in ('bulkRead', 'bulkWrite') else []):
+            if not r['ok']:
+                probs.append(O.P('recovery-failed', 'after libusb %s in %s: %s raised %s (%s)' % (err, name, r['op'], r['exc'], r.get('msg'))))
+                break
+        if getattr(run, 'post', None):
+            pr['c20_recovery'] = 1
         # whatever happened before the failing op must be right
         vi = next((i for i, r in enumerate(recs) if not r['ok']), len(recs))
         probs += [p for p in O.check_session(run, scn, relaxed_from=vi) if p[0] == 'wrong-result']
@@ -282,9 +293,15 @@ def eval_script(case, tapes, out):
         if r.get('exc') in ('SimAbort', 'SimHang'):
             break
         if k == 't_connect':
+            was_closed = closed
             closed = False
             closes = 0
             sessions.append(bytearray())
+            close_failed = any(f[1] in ('release', 'close') for f in run.usb.fired)
+            if not r['ok'] and (not was_closed or close_failed):
+                # (a failed release leaves the old handle open: outside the statement, noted in DESIGN)
+                # connecting a transport that is still connected: the interface is (rightly) busy; outside the statement
+                break       # the state of the transport is undefined from here on: stop judging this script
             if not r['ok']:
                 probs.append(O.P('unexpected-exception', 'op#%d connect raised %s: %s' % (i, r['exc'], r.get('msg'))))
         elif k == 't_close':
@@ -351,6 +368,8 @@ def eval_script(case, tapes, out):
                     break
     if not run.abort:
         for si, got in enumerate(sessions):
+            if si > 0 and any(f[1] in ('release', 'close') for f in run.usb.fired):
+                continue
             if bytes(got) != sess_bytes[:len(got)]:
                 probs.append(O.P('bytes-differ', 'connection #%d: the bytes read are not what the device wrote (first difference at %d)' % (si, O.first_diff(bytes(got), sess_bytes))))
         if written is not None:
